@@ -560,6 +560,29 @@ class Events(Exception):
     pass
 
 
+_EXC_PARENTS = {
+    "KeyError": "LookupError", "IndexError": "LookupError", "LookupError": "Exception", "ZeroDivisionError": "ArithmeticError", "OverflowError": "ArithmeticError", "ArithmeticError": "Exception",
+    "FileNotFoundError": "OSError", "OSError": "Exception", "ValueError": "Exception", "TypeError": "Exception", "AttributeError": "Exception", "StopIteration": "Exception", "RuntimeError": "Exception",
+    "RecursionError": "RuntimeError", "NotImplementedError": "RuntimeError", "AssertionError": "Exception", "ImportError": "Exception", "ModuleNotFoundError": "ImportError", "NameError": "Exception",
+    "UnicodeDecodeError": "ValueError", "NetworkXError": "NetworkXException", "NetworkXNoCycle": "NetworkXException", "NetworkXUnfeasible": "NetworkXAlgorithmError", "NetworkXNoPath": "NetworkXUnfeasible",
+    "NetworkXAlgorithmError": "NetworkXException", "NodeNotFound": "NetworkXException", "NetworkXPointlessConcept": "NetworkXException", "HasACycle": "NetworkXException", "NetworkXException": "Exception",
+    "NonTermination": "Exception", "Exception": "BaseException",
+}
+
+
+def exception_matches(kind, handler_name):
+    """Does `except <handler_name>` catch an exception of class name `kind`?  (built-in and networkx hierarchy; a class the
+    evaluated code defines itself is an `Exception` subclass whose own ancestors are not tracked)"""
+    k = kind
+    for _ in range(8):
+        if k == handler_name:
+            return True
+        k = _EXC_PARENTS.get(k, "Exception" if k not in ("BaseException",) else None)
+        if k is None:
+            return False
+    return handler_name in ("Exception", "BaseException")
+
+
 class _GenClose(BaseException):
     pass
 
@@ -941,27 +964,50 @@ class BlockInterp:
                 self.me.env[nm] = v
             return "next"
         if isinstance(st, ast.Try):
+            exc = None
+            r = "next"
             try:
                 r = self.run(st.body)
+                if isinstance(r, tuple) and r[0] == "raise":
+                    # an explicit `raise` statement inside the try body is caught by this statement's handlers too
+                    exc = ModelRaise(r[1] or "Exception", "raised by a raise statement")
             except ModelRaise as e:
+                exc = e
+            if exc is not None:
+                handled = False
                 for h in st.handlers:
-                    names = []
                     if h.type is None:
-                        names = [e.kind]
+                        names = None
                     elif isinstance(h.type, ast.Tuple):
                         names = [norm(x).split(".")[-1] for x in h.type.elts]
                     else:
                         names = [norm(h.type).split(".")[-1]]
-                    if e.kind in names or "Exception" in names:
+                    if names is None or any(exception_matches(exc.kind, nm) for nm in names):
                         if h.name:
-                            self.me.env[h.name] = e
-                        r = self.run(h.body)
+                            self.me.env[h.name] = exc
+                        stack = self.__dict__.setdefault("_exc_stack", [])
+                        stack.append(exc)
+                        try:
+                            r = self.run(h.body)
+                        except ModelRaise:
+                            # the handler itself raises (a bare `raise`, a new exception): `finally` still runs
+                            if st.finalbody:
+                                r2 = self.run(st.finalbody)
+                                if r2 != "next":
+                                    return r2
+                            raise
+                        finally:
+                            stack.pop()
+                        handled = True
                         break
-                else:
-                    raise
-            else:
-                if r == "next":
-                    r = self.run(st.orelse)
+                if not handled:
+                    if st.finalbody:
+                        r2 = self.run(st.finalbody)
+                        if r2 != "next":
+                            return r2
+                    raise exc
+            elif r == "next":
+                r = self.run(st.orelse)
             if st.finalbody:
                 r2 = self.run(st.finalbody)
                 if r2 != "next":
@@ -982,6 +1028,10 @@ class BlockInterp:
             return ("return", self.me.ev(st.value) if st.value is not None else None)
         if isinstance(st, ast.Raise):
             kind = None
+            if st.exc is None and self.__dict__.get("_exc_stack"):
+                raise self._exc_stack[-1]  # bare `raise` in a handler: the exception being handled
+            if st.exc is not None and isinstance(st.exc, ast.Name) and isinstance(self.me.env.get(st.exc.id), ModelRaise):
+                raise self.me.env[st.exc.id]  # `raise e` of a caught exception object
             if st.exc is not None:
                 e = st.exc.func if isinstance(st.exc, ast.Call) else st.exc
                 kind = norm(e).split(".")[-1]
